@@ -77,3 +77,163 @@ Example C02_witness :
   (MS Nacked COpen CClosed false,
    [HCall; HPreSettle false true; HPublish [1; 2]%N Nacked; HPublishRet true; HSettle true false]).
 Proof. reflexivity. Qed.
+
+(** * Round "proofs 3": messages that arrive already settled, from ANY state reachable in the C03
+    model ([reachable m0]: some constructor, some sequence of Ack/Nack/reads before the
+    subscriber hands the message over).  Model: [handle_from m0] (RouterHandle.v); acceptor:
+    [c02_monitor_from] (RouterFrom.v), which is what Corr/C02.v evaluates on every
+    implementation trace, with the arrival settlement of the case. *)
+From WM Require Import Handler.RouterFrom Handler.RouterFromProofs.
+
+Section C02_from.
+  Context {M : Type}.
+
+  (** whatever state the message arrives in: the chain is invoked exactly once and the Router
+      settles (calls Ack or Nack) exactly once, as its last action *)
+  Theorem C02_from_any_state_settles_once : forall m0 pk pb (r : chain_result M), reachable m0 ->
+    let tr := snd (handle_from m0 pk pb r) in
+    count_calls tr = 1 /\ count_settles tr = 1
+    /\ exists ack ret pre, tr = pre ++ [HSettle ack ret] /\ count_settles pre = 0.
+  Proof. exact from_once. Qed.
+
+  (** the final settlement is that of arrival if the message was settled already (it then leaves
+      handleMessage exactly as it came), else [expected_final]; the result is again a reachable
+      C03 state *)
+  Theorem C02_from_any_state_final : forall m0 pk pb (r : chain_result M), reachable m0 ->
+    st (fst (handle_from m0 pk pb r)) = expected_final_from (st m0) pk pb r
+    /\ (st m0 <> Unsettled -> fst (handle_from m0 pk pb r) = m0)
+    /\ (st m0 = Unsettled -> st (fst (handle_from m0 pk pb r)) = expected_final pk pb r)
+    /\ reachable (fst (handle_from m0 pk pb r)).
+  Proof. exact from_final. Qed.
+
+  (** the Router's own settle call on a message that arrived settled returns what C03 says:
+      true iff it agrees with the arrival settlement *)
+  Theorem C02_from_settled_router_call_result : forall m0 pk pb (r : chain_result M), st m0 <> Unsettled ->
+    exists pre ack ret, snd (handle_from m0 pk pb r) = pre ++ [HSettle ack ret]
+                        /\ ret = settle_eqb (st m0) (if ack then Acked else Nacked).
+  Proof. exact handle_from_settle_ret. Qed.
+
+  (** what is published does not depend on the arrival state at all *)
+  Theorem C02_from_any_state_outputs : forall m0 pk pb (r : chain_result M),
+    publishes (snd (handle_from m0 pk pb r)) = expected_publishes pk r.
+  Proof. exact handle_from_publishes. Qed.
+
+  (** every model run from every reachable arrival state passes the acceptor that judges the
+      implementation traces; for an unsettled arrival the acceptor IS [c02_monitor] *)
+  Theorem C02_from_model_accepted : forall (eqbM : M -> M -> bool), (forall x, eqbM x x = true) ->
+    forall m0 pk pb (r : chain_result M), reachable m0 ->
+    c02_monitor_from eqbM (st m0) pk pb r (snd (handle_from m0 pk pb r))
+                     (st (fst (handle_from m0 pk pb r))) = true.
+  Proof. exact from_monitor. Qed.
+
+  Theorem C02_monitor_from_unsettled_is_monitor : forall (eqbM : M -> M -> bool) pk pb (r : chain_result M) tr f,
+    c02_monitor_from eqbM Unsettled pk pb r tr f = c02_monitor eqbM pk pb r tr f.
+  Proof. exact monitor_from_unsettled. Qed.
+End C02_from.
+Print Assumptions C02_from_any_state_settles_once.
+Print Assumptions C02_from_any_state_final.
+Print Assumptions C02_from_settled_router_call_result.
+Print Assumptions C02_from_any_state_outputs.
+Print Assumptions C02_from_model_accepted.
+Print Assumptions C02_monitor_from_unsettled_is_monitor.
+
+(** non-vacuity: a message the subscriber acked before delivery, handled by a handler that
+    nacks it (returns false) and then fails: the chain runs, the Router's Nack returns false,
+    the message stays acked *)
+Example C02_from_witness :
+  handle_from (fst (step (init CtorNew) OpAck)) PubReal PubAccept (CR PreNack (Fail [1]%N)) =
+  (MS Acked CClosed COpen false, [HCall; HPreSettle false false; HSettle false false]).
+Proof. reflexivity. Qed.
+
+(** * Round "proofs 3": the handler's run loop with ANY number of messages in flight
+    (Handler/RouterLoop.v: message/router.go handler.run — receive from the subscriber's channel,
+    runningHandlersWg.Add(1), go handleMessage — and the handleMessage goroutines stepping through
+    their [handle_from] event lists into ONE global log and ONE shared publisher).
+    Quantifiers: every content of the channel (any number of messages, each in any reachable
+    arrival state with any handler / publisher behaviour), EVERY schedule ([lrun] skips labels
+    that are not enabled, so every list of labels is a schedule). *)
+From WM Require Import Base.Count Handler.RouterLoop Handler.RouterLoopProofs.
+
+Section C02_loop.
+  Context {M : Type}.
+
+  (** the projection of the global log onto one message is a prefix of that message's
+      handleMessage trace and equals it once its thread finished; what was received is an
+      initial part of what the channel had to deliver, in order *)
+  Theorem C02_loop_projection : forall pk (inbox : list (lmsg M)) sched,
+    let s := lrun pk (linit inbox) sched in
+    (exists dropped, l_msgs s ++ l_inbox s ++ dropped = inbox)
+    /\ forall i x, nth_error (l_msgs s) i = Some x ->
+         (exists rest, proj i (l_log s) ++ rest = trace_of pk x)
+         /\ (l_thr s i = @TDone M -> proj i (l_log s) = trace_of pk x)
+         /\ l_thr s i <> @TNone M.
+  Proof. exact loop_projection. Qed.
+
+  (** every received message is settled exactly once when its thread has finished (so: all of
+      them when all threads finished), by the Router's one settle call, its last event; final
+      settlement = that of arrival if it arrived settled, else [expected_final] *)
+  Theorem C02_loop_settled_once : forall pk (inbox : list (lmsg M)) sched,
+    Forall (fun x => reachable (lm_state x)) inbox ->
+    let s := lrun pk (linit inbox) sched in
+    forall i x, nth_error (l_msgs s) i = Some x -> l_thr s i = @TDone M ->
+      let tr := proj i (l_log s) in
+      count_calls tr = 1 /\ count_settles tr = 1
+      /\ (exists ack ret pre, tr = pre ++ [HSettle ack ret] /\ count_settles pre = 0)
+      /\ model_finals pk s i = expected_final_from (st (lm_state x)) pk (lm_pb x) (lm_r x).
+  Proof. exact loop_settled_once. Qed.
+
+  (** a Publish call on the shared publisher contains the outputs of exactly one consumed
+      message, all of them, in order (no batching across messages, no splitting); at most one
+      call per consumed message, exactly [expected_publishes] once its thread finished *)
+  Theorem C02_loop_publish_one_message : forall pk (inbox : list (lmsg M)) sched,
+    let s := lrun pk (linit inbox) sched in
+    (forall i outs, In (i, outs) (l_pub s) ->
+       exists x, nth_error (l_msgs s) i = Some x /\ expected_publishes pk (lm_r x) = [outs]
+                 /\ pub_proj i (l_pub s) = [outs])
+    /\ (forall i x, nth_error (l_msgs s) i = Some x ->
+          (exists rest, pub_proj i (l_pub s) ++ rest = expected_publishes pk (lm_r x))
+          /\ (l_thr s i = @TDone M -> pub_proj i (l_pub s) = expected_publishes pk (lm_r x))).
+  Proof. exact loop_publish_one_message. Qed.
+
+  (** the number of running handleMessage goroutines equals the WaitGroup counter; Done() is
+      never called on a zero counter (which would panic); the counter is zero iff nothing runs *)
+  Theorem C02_loop_wg_counts_running : forall pk (inbox : list (lmsg M)) sched,
+    let s := lrun pk (linit inbox) sched in
+    l_wg s = cnt (fun i => is_run (l_thr s i)) (length (l_msgs s))
+    /\ l_wgpanic s = false
+    /\ (l_wg s = 0 <-> forall i, is_run (l_thr s i) = false).
+  Proof. exact loop_wg_counts_running. Qed.
+
+  (** every complete model run, under every schedule, passes [loop_monitor], the acceptor that
+      judges the interleaved implementation log in checks/c02.py (Corr/C02Loop.v) *)
+  Theorem C02_loop_model_accepted : forall pk (eqbM : M -> M -> bool), (forall a : M, eqbM a a = true) ->
+    forall (inbox : list (lmsg M)) sched, Forall (fun x => reachable (lm_state x)) inbox ->
+    let s := lrun pk (linit inbox) sched in
+    all_done s = true ->
+    loop_monitor pk eqbM (l_msgs s) (model_finals pk s) (l_log s) = true.
+  Proof. exact loop_model_accepted. Qed.
+
+  (** what the correspondence check replays strictly is a run in the sense of the theorems *)
+  Theorem C02_loop_replay_is_run : forall pk sched (s s' : lstate M),
+    lreplay pk s sched = Some s' -> lrun pk s sched = s'.
+  Proof. exact replay_is_run. Qed.
+End C02_loop.
+Print Assumptions C02_loop_projection.
+Print Assumptions C02_loop_settled_once.
+Print Assumptions C02_loop_publish_one_message.
+Print Assumptions C02_loop_wg_counts_running.
+Print Assumptions C02_loop_model_accepted.
+Print Assumptions C02_loop_replay_is_run.
+
+(** non-vacuity: two messages in flight, interleaved: the second is received while the first is
+    inside Publish, finishes first; both Publish calls carry only their own message's outputs *)
+Example C02_loop_witness :
+  let inbox := [LM (init CtorNew) PubAccept (CR PreNone (Ret [1; 2]%N));
+                LM (init CtorNew) PubError (CR PreNone (Ret [3]%N))] in
+  let s := lrun PubReal (linit inbox)
+             [LRecv; LStep 0; LStep 0; LRecv; LStep 1; LStep 1; LStep 1; LStep 1; LStep 1; LClose;
+              LStep 0; LStep 0; LStep 0] in
+  (rev (l_pub s), l_wg s, all_done s, map (model_finals PubReal s) [0; 1],
+   loop_monitor PubReal N.eqb (l_msgs s) (model_finals PubReal s) (l_log s))
+  = ([(0, [1; 2]%N); (1, [3]%N)], 0, true, [Acked; Nacked], true).
+Proof. vm_compute. reflexivity. Qed.
